@@ -151,8 +151,12 @@ _FUNCS = ["pyworkers.remote_server:RemoteServer.run", "pyworkers.remote_context:
 H_SEQ = Harness(
     "seq", "vf.props.c18:h_seq", _params,
     tiers={
-        "quick": {"ranges": {"n": (0, 3), "i1": (0, 1), "i2": (0, 1), "i3": (0, 1)}, "fixed": {"o4": 0, "i4": 0, "o5": 0, "i5": 0, "o6": 0, "i6": 0},
-                  "partition": ["n", "o1"], "timeout": 300, "twin_fixed": {"n": 3, "o1": 0}},
+        "quick": {"ranges": {"n": (0, 4), "i1": (0, 1), "i2": (0, 1), "i3": (0, 1), "i4": (0, 1)}, "fixed": {"o5": 0, "i5": 0, "o6": 0, "i6": 0},
+                  "partition": ["n", "o1", "o2"], "timeout": 300,
+                  # four-step histories only over one id and starting with a registration (e.g. create, worker, worker, delete)
+                  "filter": (lambda f: f["n"] <= 3 or (f["o1"] == 0 and f["o2"] in (1, 2))),
+                  "extra_pre": ["n <= 3 or (i1 == 0 and i2 == 0 and i3 == 0 and i4 == 0)"],
+                  "twin_fixed": {"n": 3, "o1": 0, "o2": 2}},
         "thorough": {"ranges": {"n": (0, 5), "i1": (0, 1), "i2": (0, 1), "i3": (0, 1), "i4": (0, 1), "i5": (0, 1)}, "fixed": {"o6": 0, "i6": 0},
                      "partition": ["n", "o1", "o2", "o3"], "timeout": 2400, "twin_fixed": {"n": 3, "o1": 0, "o2": 2, "o3": 1}},
     },
